@@ -894,8 +894,8 @@ func ruleDBWriter(r *core.Run, p *core.Prog) {
 
 // storageErrExceptions: (function, callee) pairs whose dropped error is deliberate.
 var storageErrExceptions = map[string]string{
-	pkgGpfile + ".GPDir.ReadBlockAtIndex|" + pkgGpfile + ".GPDir.Close": "read-mode recovery: the directory moved, Close may fail and the directory is reopened right after",
-	pkgGpfile + ".GPDir.Open|os.Open":                                   "tested in both arms of the switch over accessMode; only the implicit default arm (accessMode neither ModeRead nor ModeWrite, never constructed) skips the test",
+	pkgGpfile + ".GPDir.closeForReopen|" + pkgGpfile + ".GPFile.closeFile": "read-mode recovery: the directory moved, closing the read-only column files may fail and the directory is reopened right after",
+	pkgGpfile + ".GPDir.Open|os.Open":                                      "tested in both arms of the switch over accessMode; only the implicit default arm (accessMode neither ModeRead nor ModeWrite, never constructed) skips the test",
 }
 
 // ruleStorageErrcheck: no error of the storage layer is dropped in gpfile and the goDB writer/merge.
@@ -1077,18 +1077,18 @@ func ruleReadRetryOnce(r *core.Run, p *core.Prog) {
 		}
 		return out
 	}
+	// a retry loop: a read that can be reached again from itself
 	hasLoop := false
-	core.Walk(f.Decl.Body, false, func(x ast.Node) bool {
-		switch x.(type) {
-		case *ast.ForStmt, *ast.RangeStmt:
-			hasLoop = true
-		case *ast.BranchStmt:
-			if x.(*ast.BranchStmt).Tok == token.GOTO {
+	for id, n := range g.Nodes {
+		if n == nil {
+			continue
+		}
+		for _, c := range core.Calls(n, false) {
+			if core.CallName(info, c) == pkgGpfile+".GPDir.readBlockAtIndex" && g.ReachStrict(id, id, nil) {
 				hasLoop = true
 			}
 		}
-		return true
-	})
+	}
 	ts, ok := traces(f, g, cl, 5000)
 	if !ok {
 		r.Undecided(rule, "ReadBlockAtIndex:paths", where, "too many paths")
@@ -1272,4 +1272,223 @@ func ruleDirOpenFresh(r *core.Run, p *core.Prog) {
 		}
 	}
 	r.Check(rule, "GPDir.Open:fresh-metadata-only-if-file-missing", p.Rel(f.Decl.Pos()), bad == "" && nFresh > 0, bad)
+}
+
+// ruleOpenRecovery: GPDir.Open in read mode. A concurrent write-out renames the day directory (new metadata suffix in its
+// name) as its last step, so a reader that has the old name can find the metadata file gone at any moment between
+// learning the name and opening the file. The reader's protocol is therefore reactive: when the open itself reports
+// not-exist, relocate the directory (recoverDirPath) and open again. On every read-mode path that fails after the
+// metadata open, either the error is known not to be not-exist, or the relocation was attempted after that open. A
+// relocation decided by an earlier probe (stat, then open) leaves the window between probe and open unprotected.
+func ruleOpenRecovery(r *core.Run, p *core.Prog) {
+	const rule = "reader-recovery"
+	f := r.MustFunc(rule, pkgGpfile, "GPDir.Open")
+	if f == nil {
+		return
+	}
+	info := f.Info()
+	g := core.GraphOf(f)
+	where := p.Rel(f.Decl.Pos())
+	fMode := p.FieldObj(pkgGpfile, "GPDir", "accessMode")
+	fMeta := p.FieldObj(pkgGpfile, "GPDir", "metaPath")
+	cases := enumTests(f.Decl.Body)
+	cl := func(n ast.Node, cond *bool) []ev {
+		var out []ev
+		for _, c := range core.Calls(n, false) {
+			switch core.CallName(info, c) {
+			case "os.Open", "os.OpenFile":
+				if len(c.Args) > 0 {
+					a := resolveLocal(info, f.Decl.Body, ast.Unparen(c.Args[0]))
+					isMeta := fMeta != nil && mentionsFieldR(info, f.Decl.Body, a, fMeta)
+					for _, cc := range core.Calls(a, false) {
+						if core.CallName(info, cc) == pkgGpfile+".GPDir.MetadataPath" {
+							isMeta = true
+						}
+					}
+					if isMeta {
+						out = append(out, ev{label: "open", node: c})
+					}
+				}
+			case pkgGpfile + ".GPDir.recoverDirPath":
+				out = append(out, ev{label: "recover", node: c})
+			case pkgGpfile + ".GPDir.Unmarshal":
+				out = append(out, ev{label: "decode", node: c})
+			}
+		}
+		if cond != nil {
+			e := n.(ast.Expr)
+			atoms, truths := atomsOf(e, *cond)
+			for i, a := range atoms {
+				if c, ok := ast.Unparen(a).(*ast.CallExpr); ok && core.CallName(info, c) == "errors.Is" && len(c.Args) == 2 {
+					if o := core.ObjOf(info, selOrIdent(c.Args[1])); o != nil && o.Name() == "ErrNotExist" {
+						out = append(out, ev{label: map[bool]string{true: "notexist", false: "other-error"}[truths[i]]})
+					}
+				}
+			}
+			if subj, konst, equal, ok := enumCond(cases, n, *cond); ok && fMode != nil && core.SelField(info, subj) == fMode {
+				if o := core.ObjOf(info, selOrIdent(konst)); o != nil {
+					pre := ""
+					if !equal {
+						pre = "not-"
+					}
+					out = append(out, ev{label: pre + "mode-" + o.Name()})
+				}
+			}
+		}
+		return out
+	}
+	ts, ok := traces(f, g, cl, 20000)
+	if !ok {
+		r.Undecided(rule, "GPDir.Open:paths", where, "too many paths")
+		return
+	}
+	bad, nReactive, nRead := "", 0, 0
+	for _, t := range ts {
+		if t.has("mode-ModeWrite") || t.has("not-mode-ModeRead") || !t.has("open") {
+			continue // write mode (or a contradictory combination of mode tests)
+		}
+		if t.has("mode-ModeRead") && t.has("not-mode-ModeRead") {
+			continue
+		}
+		nRead++
+		if t.count("open") >= 2 && t.has("notexist") && t.has("recover") && t.first("open") < t.first("recover") && t.first("recover") < t.last("open") {
+			nReactive++
+		}
+		if t.outcome != "fail" && t.outcome != "call" && t.outcome != "?" {
+			continue
+		}
+		if t.has("decode") {
+			continue // the file was opened; the failure is a decoding failure
+		}
+		firstOpen := t.first("open")
+		known := false
+		for i := firstOpen + 1; i < len(t.evs); i++ {
+			if t.evs[i].label == "other-error" || t.evs[i].label == "recover" {
+				known = true
+			}
+		}
+		if !known {
+			bad = "a read-mode path reports the failed metadata open as an error without having tried to relocate the directory after it (a write-out that renames the day between locating and opening it makes a committed day unreadable): " + pathLines(p, g, t.path)
+		}
+	}
+	r.Check(rule, "GPDir.Open:missing-metadata-is-retried-after-relocation", where, bad == "" && nReactive > 0 && nRead > 0, orStr(bad, fmt.Sprintf("%d read-mode paths, %d relocate-and-reopen paths", nRead, nReactive)))
+}
+
+// ruleLentBuffers: ownership of the block buffers. GPFile.ReadBlockAtIndex hands out a slice of a buffer the GPFile owns
+// (taken from a process-wide pool); the caller keeps the blocks of all columns of a time slot while it reads the next
+// column. Functions that serve blocks (return what ReadBlockAtIndex returned, directly or through wrappers) therefore must
+// not, on any path, give such a buffer back to the pool: the next column file opened would be handed the same memory and
+// overwrite a block the caller still holds. Giving buffers back is for the final Close only.
+// Decided on the static call graph of the storage package: lent fields = receiver fields returned by
+// GPFile.ReadBlockAtIndex; release sites = pool.Put(<lent field>); serving functions = fixpoint of "returns the result of
+// a serving function"; obligation per serving function: no call in it reaches a release site.
+func ruleLentBuffers(r *core.Run, p *core.Prog) {
+	const rule = "buffer-ownership"
+	rd := r.MustFunc(rule, pkgGpfile, "GPFile.ReadBlockAtIndex")
+	if rd == nil {
+		return
+	}
+	// (1) lent fields
+	lent := map[types.Object]bool{}
+	rinfo := rd.Info()
+	core.Walk(rd.Decl.Body, false, func(x ast.Node) bool {
+		if rs, ok := x.(*ast.ReturnStmt); ok && len(rs.Results) == 2 {
+			if fv := core.SelField(rinfo, resolveLocal(rinfo, rd.Decl.Body, ast.Unparen(rs.Results[0]))); fv != nil {
+				lent[fv] = true
+			}
+		}
+		return true
+	})
+	if len(lent) == 0 {
+		r.Undecided(rule, "GPFile.ReadBlockAtIndex:lent-field", p.Rel(rd.Decl.Pos()), "the returned block is not a field of the GPFile")
+		return
+	}
+	fns := p.Funcs(pkgGpfile)
+	// (2) release sites
+	releases := map[*types.Func]string{}
+	for _, fn := range fns {
+		info := fn.Info()
+		for _, c := range core.Calls(fn.Decl.Body, true) {
+			if _, m := core.MethodCall(info, c); m == "Put" && len(c.Args) == 1 {
+				if fv := core.SelField(info, resolveLocal(info, fn.Decl.Body, ast.Unparen(c.Args[0]))); fv != nil && lent[fv] {
+					releases[fn.Obj] = p.Rel(c.Pos())
+				}
+			}
+		}
+	}
+	if len(releases) == 0 {
+		r.Undecided(rule, "release-sites", p.Rel(rd.Decl.Pos()), "no pool.Put of a lent buffer found (the buffers come from a pool: where do they go back?)")
+		return
+	}
+	// (3) serving functions
+	serving := map[*types.Func]bool{rd.Obj: true}
+	for changed := true; changed; {
+		changed = false
+		for _, fn := range fns {
+			if serving[fn.Obj] {
+				continue
+			}
+			info := fn.Info()
+			core.Walk(fn.Decl.Body, false, func(x ast.Node) bool {
+				rs, ok := x.(*ast.ReturnStmt)
+				if !ok {
+					return true
+				}
+				for _, res := range rs.Results {
+					e := ast.Unparen(res)
+					if id, isId := e.(*ast.Ident); isId {
+						if c, _ := defCall(info, fn.Decl.Body, core.ObjOf(info, id)); c != nil {
+							e = c
+						}
+					}
+					if c, isCall := e.(*ast.CallExpr); isCall {
+						if fo, _ := core.Callee(info, c).(*types.Func); fo != nil && serving[fo] {
+							serving[fn.Obj], changed = true, true
+						}
+					}
+				}
+				return true
+			})
+		}
+	}
+	// (4) no serving function reaches a release site
+	var reach func(fo *types.Func, depth int, seen map[*types.Func]bool) string
+	reach = func(fo *types.Func, depth int, seen map[*types.Func]bool) string {
+		if w, ok := releases[fo]; ok {
+			return fo.Name() + " (" + w + ")"
+		}
+		if depth > 6 || seen[fo] {
+			return ""
+		}
+		seen[fo] = true
+		fn := p.FnOf(fo)
+		if fn == nil {
+			return ""
+		}
+		for _, c := range core.Calls(fn.Decl.Body, true) {
+			if co, _ := core.Callee(fn.Info(), c).(*types.Func); co != nil {
+				if via := reach(co, depth+1, seen); via != "" {
+					return fo.Name() + " → " + via
+				}
+			}
+		}
+		return ""
+	}
+	n := 0
+	for _, fn := range fns {
+		if !serving[fn.Obj] {
+			continue
+		}
+		n++
+		bad := ""
+		for _, c := range core.Calls(fn.Decl.Body, true) {
+			if co, _ := core.Callee(fn.Info(), c).(*types.Func); co != nil && !serving[co] {
+				if via := reach(co, 0, map[*types.Func]bool{}); via != "" {
+					bad = fmt.Sprintf("%s: while serving a block, %s returns the buffers of the column files to the pool; blocks handed out earlier alias them and are overwritten by the next column that is opened", p.Rel(c.Pos()), via)
+				}
+			}
+		}
+		r.Check(rule, fn.Name+":serving-does-not-recycle-lent-buffers", p.Rel(fn.Decl.Pos()), bad == "", bad)
+	}
+	r.Stat("serving_functions", n)
 }
